@@ -247,6 +247,7 @@ func c17FilterOnly(r *an.Run) {
 		}
 		site := filterSite{g: f, isList: isOwnList, isLo: isBound("Start"), isHi: isBound("End"), result: []ssa.Value{listStore.Val}}
 		var loArg, hiArg ssa.Value
+		var scanIn *ssa.Function // when the helper receives the whole interval: where its bounds are compared
 		// the filter may have been extracted into a private helper: cg.List = helper(cg.List, lo, hi)
 		if call, ok := listStore.Val.(*ssa.Call); ok {
 			if h := an.StaticCallee(call); h != nil && an.InModule(h) && h.Blocks != nil {
@@ -277,6 +278,18 @@ func c17FilterOnly(r *an.Run) {
 						site = filterSite{g: h, isList: func(v ssa.Value) bool { return v == ssa.Value(h.Params[li]) },
 							isLo: func(v ssa.Value) bool { return v == ssa.Value(lp) }, isHi: func(v ssa.Value) bool { return v == ssa.Value(hp) }, result: results}
 						r.Check(isBound("Start")(loArg) && isBound("End")(hiArg), short(f)+"|helper-gets-interval", call.Pos(), "the helper is given the start and the end of the changed interval")
+					} else if ivIdx := intervalArg(call); len(posParams) == 0 && ivIdx >= 0 {
+						// the helper is given the interval as a whole and reads its Start / End itself
+						var results []ssa.Value
+						for _, ret := range an.Returns(h) {
+							results = append(results, ret.Results[0])
+						}
+						ivName := h.Params[ivIdx].Name()
+						bound := func(field string) func(ssa.Value) bool {
+							return func(v ssa.Value) bool { return an.Path(v) == ivName+"."+field && !isAddr(v) }
+						}
+						site = filterSite{g: h, isList: func(v ssa.Value) bool { return v == ssa.Value(h.Params[li]) }, isLo: bound("Start"), isHi: bound("End"), result: results}
+						scanIn = h
 					} else {
 						r.Undecided(short(f)+"|helper-bounds", call.Pos(), "cannot identify the interval bounds handed to %s", short(h))
 					}
@@ -297,8 +310,12 @@ func c17FilterOnly(r *an.Run) {
 			collect(hiArg)
 		} else {
 			inner := an.LoopOf(f, listStore.Block())
-			for _, b := range f.Blocks {
-				if inner != nil && !inner.Blocks[b] && !b.Dominates(listStore.Block()) {
+			scan := f
+			if scanIn != nil {
+				scan, inner = scanIn, nil
+			}
+			for _, b := range scan.Blocks {
+				if scanIn == nil && inner != nil && !inner.Blocks[b] && !b.Dominates(listStore.Block()) {
 					continue
 				}
 				if iff, ok := b.Instrs[len(b.Instrs)-1].(*ssa.If); ok {
@@ -470,4 +487,25 @@ func c17IdentityUnchanged(r *an.Run) {
 		r.Check(good, short(f)+"|identity-arm", c.If.Pos(), "for an element the edit script marks Identity, walkSlice records the pair as unchanged (calls made in that arm: %v): its comments stay attached in the next snapshot", callees)
 	}
 	r.Check(found, short(f)+"|identity-case", f.Pos(), "walkSlice distinguishes the Identity edit")
+}
+
+// intervalArg returns the index of the argument of call that is a struct with
+// Start and End fields of type token.Pos (the changed interval), or -1.
+func intervalArg(call *ssa.Call) int {
+	for i, a := range call.Call.Args {
+		st, ok := a.Type().Underlying().(*types.Struct)
+		if !ok {
+			continue
+		}
+		have := 0
+		for k := 0; k < st.NumFields(); k++ {
+			if (st.Field(k).Name() == "Start" || st.Field(k).Name() == "End") && an.IsNamed(st.Field(k).Type(), "go/token", "Pos") {
+				have++
+			}
+		}
+		if have == 2 {
+			return i
+		}
+	}
+	return -1
 }
